@@ -46,6 +46,10 @@ func genC17(t *rapid.T) *Case {
 			r.NoMD = true
 		default:
 			r.ReqMD = genMD(t, fmt.Sprintf("r%d.reqmd", i))
+			if rapid.IntRange(0, 2).Draw(t, fmt.Sprintf("r%d.timeout", i)) == 0 {
+				// a deadline that exists on the serving end (the handler's context is then built on a different path)
+				r.GrpcTimeout = []string{rapid.SampledFrom([]string{"30S", "1H", "5000m"}).Draw(t, fmt.Sprintf("r%d.timeoutval", i))}
+			}
 		}
 		c.RPCs = append(c.RPCs, r)
 	}
